@@ -4,8 +4,9 @@ Closed systems of 1-3 mutually interacting particle arrays (every array is a
 destination with all arrays as sources) are evaluated with the compiled
 shipped equations; the oracle is the conservation law itself:
 |sum m a| <= 1e-12 * sum m|a|, and for central-force terms the same for
-sum m x cross a.  One JIT compile per (kernel, number of arrays, dim);
-the equation under test is selected per evaluation through group conditions,
+sum m x cross a.  One JIT compile per shard (kernel, dim, number of arrays,
+the entries of the table assigned to the shard, serial or OpenMP); the
+equation under test is selected per evaluation through group conditions,
 the neighbour algorithm through set_nnps (no recompile).
 
 Which sums are asserted for which equation is written in the EQUATIONS table
@@ -213,11 +214,13 @@ EQUATIONS = [
     # MAGMA2: (P_a+q_a)/rho_a^2 G_a + (P_b+q_b)/rho_b^2 G_b with the
     # reconstructed, pair-antisymmetric velocity jump
     E('gas_dynamics.magma2', 'MomentumAndEnergyStdGrad', dict(fkern=1.0),
-      energy=True, prep=('positive_p',), fam='gas'),
+      energy=True, prep=('positive_p', 'magma2_limiter'), fam='gas'),
     E('gas_dynamics.magma2', 'MomentumAndEnergyMI1', dict(fkern=1.0),
-      central=False, energy=True, prep=('positive_p',), fam='gas'),
+      central=False, energy=True, prep=('positive_p', 'magma2_limiter'),
+      fam='gas'),
     E('gas_dynamics.magma2', 'MomentumAndEnergyMI2', dict(fkern=1.0),
-      central=False, energy=True, prep=('positive_p',), fam='gas'),
+      central=False, energy=True, prep=('positive_p', 'magma2_limiter'),
+      fam='gas'),
     # ---- solid mechanics
     # m_b (sigma_a/rho_a^2 + sigma_b/rho_b^2 + (R_a+R_b) f^n) . grad W; the
     # constants wdeltap and n must be equal on all arrays
@@ -255,6 +258,8 @@ NNPS = ['LinkedListNNPS', 'BoxSortNNPS', 'SpatialHashNNPS',
 NNPS_ONE_ARRAY = NNPS + ['StratifiedSFCNNPS']
 KERNELS = ['CubicSpline', 'QuinticSpline', 'WendlandQuintic', 'Gaussian',
            'WendlandQuinticC4', 'WendlandQuinticC6', 'SuperGaussian']
+# W = exp(-q^2) (d/2 + 1 - q^2) is negative for q^2 > d/2 + 1
+NEGATIVE_LOBES = ('SuperGaussian',)
 KERNELS_1D = ['WendlandQuinticC2_1D', 'WendlandQuinticC4_1D',
               'WendlandQuinticC6_1D']
 # (module, class, property that must be positive)
@@ -280,15 +285,19 @@ SIGNED = ('s00', 's01', 's02', 's11', 's12', 's22', 'r00', 'r01', 'r02',
           'gradrho', 'de', 'dde', 'ddv', 'grhox', 'grhoy', 'grhoz', 'div')
 
 
-NSLICES = {1: 1, 2: 2, 3: 4}
+# entries per generated module: its size grows with entries x arrays^2
+CAPACITY = {1: 64, 2: 20, 3: 9}
 
 
-def select(variant, narr=1, slc=None):
+def select(variant=0, eqs=None, dens=None):
     """Two classes with the same name cannot live in one evaluator (the
-    generated wrappers are keyed by class name), so same-named classes are
-    distributed over shard variants.  The size of the generated module
-    grows with (classes x arrays^2): systems of 2 (3) arrays take every
-    second (fourth) entry of the table, the slice rotating over shards."""
+    generated wrappers are keyed by class name).  New shards carry explicit
+    index lists (see assign()); cases recorded before that carry a variant
+    number: same-named classes distributed over variants."""
+    if eqs is not None:
+        return ([EQUATIONS[i] for i in eqs],
+                [DENSITY[j] for j in (dens or [])])
+
     def pick(table, mod_of, name_of):
         names = {}
         for e in table:
@@ -299,19 +308,50 @@ def select(variant, narr=1, slc=None):
                 if mod_of(e) == names[name_of(e)][
                     variant % len(names[name_of(e)])]]
     eqs = pick(EQUATIONS, lambda e: e['mod'], lambda e: e['name'])
-    if slc is not None:
-        nsl = NSLICES.get(narr, 4)
-        eqs = [e for i, e in enumerate(eqs) if i % nsl == slc % nsl]
-    dens = pick(DENSITY, lambda e: e[0], lambda e: e[1])
-    # the momentum classes and the densities share one evaluator too
-    taken = set(e['name'] for e in eqs)
-    dens = [d for d in dens if d[1] not in taken]
+    dens = pick(DENSITY[:3], lambda e: e[0], lambda e: e[1])
     return eqs, dens
+
+
+def assign(narrs, seedv):
+    """Entries of the table for each shard (narrs: number of arrays of each
+    shard): per number of arrays a queue of table entries rotates over the
+    shards, a shard takes the first CAPACITY entries without a class-name
+    clash, the skipped ones come first in the next shard.  -> list of
+    (equation indices, density indices)."""
+    from collections import deque
+    queues = {}
+    out = []
+    sd = [j for j, d in enumerate(DENSITY) if d[1] == 'SummationDensity']
+    other = [j for j, d in enumerate(DENSITY) if d[1] != 'SummationDensity']
+    for i, na in enumerate(narrs):
+        if na not in queues:
+            q = deque(range(len(EQUATIONS)))
+            q.rotate(-(7 * seedv) % len(EQUATIONS))
+            queues[na] = q
+        q = queues[na]
+        cap = CAPACITY.get(na, 9)
+        taken, names, skipped = [], {}, []
+        while q and len(taken) < cap:
+            k = q.popleft()
+            e = EQUATIONS[k]
+            if names.setdefault(e['name'], e['mod']) != e['mod'] or \
+                    k in taken:
+                skipped.append(k)
+                continue
+            taken.append(k)
+        q.extendleft(reversed(skipped))
+        q.extend(taken)
+        out.append((sorted(taken), [sd[(i + seedv) % len(sd)]] + other))
+    return out
 
 
 def eq_class(mod, name):
     import importlib
     return getattr(importlib.import_module(mod), name)
+
+
+LAYOUT_DONOR = {'MomentumAndEnergyMI1': 'MomentumAndEnergyStdGrad',
+                'MomentumAndEnergyMI2': 'MomentumAndEnergyStdGrad'}
 
 
 def layout_union(dim, kernel, EQUATIONS, DENSITY):
@@ -354,7 +394,12 @@ def layout_union(dim, kernel, EQUATIONS, DENSITY):
         # images (copied per stride block) would carry other entries.
         lay.setdefault('cm', ('prop', dim * dim))
     for e, why in pending:
-        # laid out by the classes that use the same names (MI2 for MI1)
+        # laid out by the class that uses the same names and is executable
+        if e['name'] in LAYOUT_DONOR:
+            l, _ = infer_layout(eq_class(e['mod'], LAYOUT_DONOR[e['name']]),
+                                dim, kernel)
+            if l:
+                merge(l)
         obj, _ = C.instantiate(eq_class(e['mod'], e['name']), 'dd', ['dd'],
                                dim)
         d, sr = C.array_names(obj) if obj is not None else (set(), set())
@@ -382,7 +427,7 @@ H_MULT_WIDE = [0.5, 0.7, 1.0, 1.0, 1.4, 2.0]
 
 
 @st.composite
-def data_strategy(draw, narr, dim, rs=2.0):
+def data_strategy(draw, narr, dim, rs=2.0, neq=None):
     import math
     arrays = []
     periodic = draw(st.sampled_from([0, 0, 0, 1]))
@@ -441,7 +486,8 @@ def data_strategy(draw, narr, dim, rs=2.0):
     return dict(arrays=arrays,
                 nnps=draw(st.sampled_from(NNPS_ONE_ARRAY if narr == 1
                                           else NNPS)),
-                eq=draw(st.integers(0, len(EQUATIONS) + len(DENSITY) - 1)),
+                eq=draw(st.sampled_from(list(range(
+                    neq or (len(EQUATIONS) + len(DENSITY)))))),
                 cache=draw(st.booleans()), cv=draw(st.integers(0, 3)),
                 periodic=periodic, L=L)
 
@@ -460,7 +506,16 @@ def prep_data(data, entry, labels):
     if entry is None or not entry['prep']:
         return data, forced
     data = copy.deepcopy(data)
+    import os
+    # development aid: show the two known defects instead of excluding them
+    # the three defects behind these preparations are repaired in /repo
+    # (replays/C09/*.json); nothing is excluded any more
+    noexcl = True
     for p in entry['prep']:
+        if noexcl and p in ('pcisph_mass', 'crksph_h'):
+            continue
+        if p == 'magma2_limiter':
+            continue    # decided on the laid-out state, see run()
         if p == 'positive_p':
             # gas-dynamics classes divide by p or p_a + p_b
             for a in data['arrays']:
@@ -562,13 +617,14 @@ def make_kwargs(cls, kw, dim):
     return kk
 
 
-def setup(kernel_name, dim, narr, first, variant=0, openmp=False, slc=None):
-    EQUATIONS, DENSITY = select(variant, narr, slc)
+def setup(kernel_name, dim, narr, first, variant=0, openmp=False, eqs=None,
+          dens=None):
+    EQUATIONS, DENSITY = select(variant, eqs, dens)
     from pysph.base import kernels
     from pysph.sph.equation import Group
     from vlib import jit
     if openmp:
-        from pysph.base.config import get_config
+        from compyle.config import get_config
         get_config().use_openmp = True
     s = Sys()
     s.names = ['a%d' % i for i in range(narr)]
@@ -596,6 +652,39 @@ def setup(kernel_name, dim, narr, first, variant=0, openmp=False, slc=None):
     return s
 
 
+def magma2_limiter_singular(specs, dim, shifts):
+    """MAGMA2's slope limiter divides the destination's by the source's
+    projected velocity gradient (A = num/den, phi = 4A/(1+A)^2).  When
+    exactly one of the two is exactly zero the pair gets phi(inf) = nan -> 1
+    one way and phi(0) = 0 the other way (KNOWN DEFECT of the unchanged
+    tree, excluded and counted).  True when some pair of particles (or of a
+    particle and a periodic image) is of that kind; the sums are formed in
+    the order of the loop, so the zeros are the same zeros."""
+    import numpy as np
+    dd = dim * dim
+    X, DV = [], []
+    for sp in specs:
+        n = sp['n']
+        X.append(np.array([sp['props'][c]['data'] for c in
+                           ('x', 'y', 'z')[:dim]], dtype=float).T)
+        flat = np.asarray(sp['props']['dv']['data'], dtype=float)
+        DV.append(np.array([flat[dd * i:dd * i + dd] for i in range(n)]))
+    X = np.concatenate(X)
+    DV = np.concatenate(DV)
+    for sh in shifts:
+        Xd = X[:, None, :] - (X[None, :, :] + np.asarray(sh)[None, None, :])
+        num = np.zeros(Xd.shape[:2])
+        den = np.zeros(Xd.shape[:2])
+        for r in range(dim):
+            for c in range(dim):
+                num = num + DV[:, None, r * dim + c] * Xd[..., r] * Xd[..., c]
+                den = den + DV[None, :, r * dim + c] * Xd[..., r] * Xd[..., c]
+        apart = (Xd != 0).any(axis=2)
+        if np.any(apart & ((num == 0) != (den == 0))):
+            return True
+    return False
+
+
 def periodic_ok(s, data):
     """A periodic box is generated only when it is at least two cells wide
     (narrower boxes need several image layers, which the domain manager does
@@ -618,6 +707,7 @@ def get_nnps(s, name, cache=False, domain=None):
 
 def run(s, data, kernel_name):
     EQUATIONS, DENSITY = s.EQUATIONS, s.DENSITY
+    import os
     import numpy as np
     from vlib import jit
     labels = []
@@ -644,6 +734,15 @@ def run(s, data, kernel_name):
             kw.update(zmin=0.0, zmax=L, periodic_in_z=True)
         domain = DomainManager(**kw)
         labels.append('periodic')
+    if entry is not None and 'magma2_limiter' in entry['prep']:
+        import itertools
+        shifts = [(0.0,) * s.dim]
+        if periodic:
+            shifts = list(itertools.product((0.0, data['L'], -data['L']),
+                                            repeat=s.dim))
+        if False and magma2_limiter_singular(specs, s.dim, shifts):
+            return fails, labels + [
+                'excluded:magma2_limiter_zero_denominator'], False
     cache = bool(data.get('cache', False))
     labels.append('cache_on' if cache else 'cache_off')
     if s.openmp:
@@ -693,6 +792,11 @@ def run(s, data, kernel_name):
         labels.append('mixed_sign_pressure')
     if k >= len(EQUATIONS):
         mod, name, prop = DENSITY[k - len(EQUATIONS)]
+        if kernel_name in NEGATIVE_LOBES:
+            # sum m_b W_ab need not be positive when W is negative
+            # somewhere (heavy neighbours in the negative lobe): nothing is
+            # promised, count and leave
+            return fails, labels + ['density_skipped_negative_kernel'], False
         labels.append('density_checked')
         labels.append('density:%s.%s' % (mod.split('.')[-1], name))
         for pa, n in zip(s.arrays, nreal):
@@ -825,8 +929,8 @@ def plan(ctx):
     if ctx['tier'] == 'quick':
         combos = []
         kk = KERNELS + KERNELS_1D
-        narrs = [1, 2, 2, 3, 3, 1, 2, 2, 3, 3]
-        for i in range(10):
+        narrs = [1, 2, 2, 3, 3, 1, 2, 2, 3, 3, 1, 2]
+        for i in range(len(narrs)):
             kern = kk[(i + seedv) % len(kk)]
             dim = [2, 3, 1, 2][(i + seedv) % 4]
             if kern.endswith('_1D'):
@@ -843,16 +947,12 @@ def plan(ctx):
         combos += [(k, 1, na, na == 2) for k in KERNELS_1D
                    for na in (1, 2, 3)]
         n = 1500
-    count = {}
+    parts = assign([c[2] for c in combos], seedv)
     for i, (kern, dim, na, omp) in enumerate(combos):
-        # the slice advances with every shard of the same number of arrays
-        slc = count.get(na, 0) + seedv
-        count[na] = count.get(na, 0) + 1
         sp = dict(name='sys-%02d-%s-%dd-%da%s' % (i, kern, dim, na,
                                                    '-omp' if omp else ''),
-                  kernel=kern, dim=dim, narr=na, n=n,
-                  variant=(i + seedv) % 84, openmp=bool(omp),
-                  slice=slc % NSLICES[na],
+                  kernel=kern, dim=dim, narr=na, n=n, variant=0,
+                  openmp=bool(omp), eqs=parts[i][0], dens=parts[i][1],
                   # the machine is shared: a few OpenMP threads only (the
                   # neighbour searches run their parallel paths with them)
                   omp=3 if omp else 2)
@@ -868,7 +968,7 @@ def radius_scale(kernel_name, dim):
 def case_of(spec, data):
     return dict(kernel=spec['kernel'], dim=spec['dim'], narr=spec['narr'],
                 variant=spec['variant'], openmp=spec.get('openmp', False),
-                slice=spec.get('slice'), data=data)
+                eqs=spec.get('eqs'), dens=spec.get('dens'), data=data)
 
 
 def run_shard(spec, ctx):
@@ -881,12 +981,17 @@ def run_shard(spec, ctx):
         if 's' not in holder:
             holder['s'] = setup(spec['kernel'], spec['dim'], spec['narr'],
                                 data, spec['variant'],
-                                spec.get('openmp', False), spec.get('slice'))
+                                spec.get('openmp', False), spec.get('eqs'),
+                                spec.get('dens'))
             stats.extra['jit_compiles'] += 1
         fails, labels, nt = run(holder['s'], data, spec['kernel'])
         return Outcome(fails, sorted(set(labels)), nt)
+    neq = None
+    if spec.get('eqs') is not None:
+        neq = len(spec['eqs']) + len(spec.get('dens') or [])
     search(data_strategy(spec['narr'], spec['dim'],
-                         radius_scale(spec['kernel'], spec['dim'])), execute,
+                         radius_scale(spec['kernel'], spec['dim']), neq),
+           execute,
            derive_seed(ctx.seed, 'C09', spec['name']), spec['n'], stats,
            shrink=True)
     for f in stats.failures:
@@ -901,6 +1006,6 @@ def run_shard(spec, ctx):
 def run_case(case, component, ctx):
     s = setup(case['kernel'], case['dim'], case['narr'], case['data'],
               case.get('variant', 0), case.get('openmp', False),
-              case.get('slice'))
+              case.get('eqs'), case.get('dens'))
     fails, _, _ = run(s, case['data'], case['kernel'])
     return [f.as_dict(case) for f in fails]
